@@ -33,6 +33,13 @@ pub fn build_ops(rng: &mut Rng, n: usize) -> Vec<Op> {
 }
 
 fn cfg_for(rng: &mut Rng, n: usize) -> HistCfg {
+    let mut c = cfg_small(rng, n);
+    // one case in 24 runs on a table of many megabytes (see make_cfg)
+    if !cfg!(miri) && rng.below(24) == 0 { c.cap0 = Some(60_000 + rng.usize_below(100_000)); }
+    c
+}
+
+fn cfg_small(rng: &mut Rng, n: usize) -> HistCfg {
     HistCfg { hk: [0u8, 1, 2, 3, 3, 4, 5, 6, 7][rng.usize_below(9)], cap0: [None, Some(0), Some(1), Some(n), Some(2 * n + 2)][rng.usize_below(5)], max: 1 << 40, universe: (n as u32 + 2).max(3), events: 0, extreme: false }
 }
 
